@@ -1,1 +1,140 @@
-/-! C06 — property theorems (stub; no obligations yet) -/
+import Ypv.Lemmas.Diff
+/-!
+# C06 — a diff is truthful and complete; it is empty of changes iff the data are equal
+
+Theorems about the model `Ypv.Diff` (`Model/Diff.lean`) of `yamlpath.differ`; the definitions
+the statements use (`clean`, `dataEq`, `leaves`, `wf`, `keyed`) are in `Spec/Diff.lean`.
+-/
+namespace Ypv.C06
+open Ypv Ypv.Diff
+
+/-! ## exit status -/
+
+theorem changesFound_iff (rep : List Entry) : changesFound rep = true ↔ ∃ e ∈ rep, e.action ≠ .same := by
+  induction rep with
+  | nil => simp [changesFound]
+  | cons e es ih =>
+    unfold changesFound
+    by_cases h : e.action = .same
+    · simp [h, ih]
+    · simp [h]
+
+/-- `yaml-diff` exits with 0 exactly when the report has no entry other than SAME
+(`print_report`'s `changes_found` flag, `exit_state = 1 if … else 0`). -/
+theorem exit_zero_iff_clean (rep : List Entry) : exitStatus rep = 0 ↔ clean rep = true := by
+  unfold exitStatus clean
+  induction rep with
+  | nil => simp [changesFound]
+  | cons e es ih =>
+    unfold changesFound
+    by_cases h : e.action = .same
+    · simpa [h] using ih
+    · simp [h]
+
+example : exitStatus (report ⟨.position, .position⟩ (.seq none [.scalar none (.int 1)]) (.seq none [])) = 1 := by
+  decide +kernel
+
+/-! ## accounting of a synchronisation -/
+
+/-- Each left element appears exactly once (in order, with its own index) among the tuples of a
+synchronisation, each right element exactly once (the right sides of the tuples are a permutation
+of the indexed right list), every tuple is a matched pair for which the matcher holds, a lone left
+element, or a lone right element.  Holds for every matcher, hence for
+`synchronize_lists_by_value` and `synchronize_lods_by_key`.  Proved by induction over the loop
+with the list of remaining right elements (`rhs_reduced`) as the invariant. -/
+theorem sync_accounting (m : Node → Node → Bool) (xs ys : List Node) :
+    (sync m xs ys).filterMap (fun p => p.l) = enumFrom 0 xs
+    ∧ ((sync m xs ys).filterMap (fun p => p.r)).Perm (enumFrom 0 ys)
+    ∧ (∀ p ∈ sync m xs ys,
+        (∃ a b, p = ⟨some a, some b⟩ ∧ m a.2 b.2 = true) ∨ (∃ a, p = ⟨some a, none⟩) ∨ (∃ b, p = ⟨none, some b⟩)) :=
+  ⟨syncLoop_left m xs 0 _, syncLoop_right m xs 0 _, syncLoop_shape m xs 0 _⟩
+
+/-- the indices on the two sides: `0 … len-1`, each once -/
+theorem sync_indices (m : Node → Node → Bool) (xs ys : List Node) :
+    ((sync m xs ys).filterMap (fun p => p.l)).map (fun a => a.1) = List.range' 0 xs.length
+    ∧ (((sync m xs ys).filterMap (fun p => p.r)).map (fun a => a.1)).Perm (List.range' 0 ys.length) := by
+  obtain ⟨h1, h2, _⟩ := sync_accounting m xs ys
+  refine ⟨by rw [h1, enumFrom_fst], ?_⟩
+  have := h2.map (fun a => a.1)
+  rwa [enumFrom_fst] at this
+
+example : syncByValue [.scalar none (.int 1), .scalar none (.int 2), .scalar none (.int 3)]
+    [.scalar none (.int 3), .scalar none (.int 1), .scalar none (.int 4)]
+    = [⟨some (0, .scalar none (.int 1)), some (1, .scalar none (.int 1))⟩,
+       ⟨some (1, .scalar none (.int 2)), none⟩,
+       ⟨some (2, .scalar none (.int 3)), some (0, .scalar none (.int 3))⟩,
+       ⟨none, some (2, .scalar none (.int 4))⟩] := by decide +kernel
+
+/-- what the report makes of one tuple under the identity-key modes -/
+def keyPairEntries (s : Bool) (c : Cfg) (p : Addr) (deep : Bool) : Pair → List Entry
+  | ⟨some (i, x), some (j, y)⟩ =>
+    if deep then diffBetween s c (p ++ [.idx j]) x y else [scalarEntry (p ++ [.idx i]) x y]
+  | ⟨some (i, x), none⟩ => [mkDel (p ++ [.idx i]) x]
+  | ⟨none, some (j, y)⟩ => [mkAdd (p ++ [.idx j]) y]
+  | ⟨none, none⟩ => []
+
+/-- The KEY/DEEP report of two record lists is, tuple by tuple, what the synchronisation says:
+a matched pair is compared (one SAME/CHANGE entry, or the pair's own diff), a lone left record is
+one DELETE, a lone right record one ADD.  With `sync_accounting`: every left record is accounted
+for exactly once as same/changed/deleted and every right record exactly once as same/changed/added. -/
+theorem key_report_follows_sync (s : Bool) (c : Cfg) (p : Addr) (deep : Bool) (ka : Key) :
+    ∀ (xs : List Node) (i : Nat) (rem : List (Nat × Node)),
+    diffKey s c p deep ka i xs rem = (syncLoop (keyMatch ka) i xs rem).flatMap (keyPairEntries s c p deep) := by
+  intro xs
+  induction xs with
+  | nil =>
+    intro i rem
+    simp only [diffKey, syncLoop]
+    induction rem with
+    | nil => rfl
+    | cons y ys ih => simp [List.flatMap_cons, keyPairEntries, ih]
+  | cons x xs ih =>
+    intro i rem
+    unfold diffKey syncLoop
+    split
+    · rename_i y rem' heq
+      simp only [List.flatMap_cons, keyPairEntries, ih]
+    · rename_i heq
+      simp only [List.flatMap_cons, keyPairEntries, ih, List.singleton_append]
+
+/-- what `_diff_synced_lists` makes of a matched pair / a lone left element -/
+def valuePairEntries (s : Bool) (c : Cfg) (p : Addr) : Pair → List Entry
+  | ⟨some (i, x), some (_, y)⟩ => diffBetween s c (p ++ [.idx i]) x y
+  | ⟨some (i, x), none⟩ => [mkDel (p ++ [.idx i]) x]
+  | _ => []
+
+/-- The value-synchronised report, before the pending ADDs are merged with DELETEs at the same
+path: the entries of the matched and lone left elements follow the tuples of
+`synchronize_lists_by_value`, and the elements still to be added are exactly its lone right elements. -/
+theorem value_report_follows_sync (s : Bool) (c : Cfg) (p : Addr) :
+    ∀ (xs : List Node) (i : Nat) (rem : List (Nat × Node)),
+    (diffValue s c p i xs rem).1 = (syncLoop (fun x y => eqv y x) i xs rem).flatMap (valuePairEntries s c p)
+    ∧ (diffValue s c p i xs rem).2
+        = (syncLoop (fun x y => eqv y x) i xs rem).filterMap (fun q => match q with | ⟨none, some b⟩ => some b | _ => none) := by
+  intro xs
+  induction xs with
+  | nil =>
+    intro i rem
+    simp only [diffValue, syncLoop]
+    induction rem with
+    | nil => exact ⟨rfl, rfl⟩
+    | cons y ys ih =>
+      obtain ⟨h1, h2⟩ := ih
+      refine ⟨?_, ?_⟩
+      · simpa [List.flatMap_cons, valuePairEntries] using h1
+      · simp only [List.map_cons, List.filterMap_cons]
+        rw [← h2]
+  | cons x xs ih =>
+    intro i rem
+    unfold diffValue syncLoop
+    split
+    · rename_i y rem' heq
+      obtain ⟨h1, h2⟩ := ih (i + 1) rem'
+      simp only [List.flatMap_cons, valuePairEntries, List.filterMap_cons]
+      exact ⟨by rw [h1], h2⟩
+    · rename_i heq
+      obtain ⟨h1, h2⟩ := ih (i + 1) rem
+      simp only [List.flatMap_cons, valuePairEntries, List.filterMap_cons, List.singleton_append]
+      exact ⟨by rw [h1], h2⟩
+
+end Ypv.C06
